@@ -107,6 +107,9 @@ type setup struct {
 	OverTTL   string
 	OverClaim string
 	Subject   string
+	// Cache: a token cache is in use and, before the rule under test is executed, the same subject was handed a token
+	// by a rule which uses the finalizer as configured in the catalogue (without the overrides)
+	Cache bool
 }
 
 func (s setup) String() string {
@@ -143,7 +146,12 @@ func build(s setup, dir string) (*vkit.World, string, error) {
 	conf.Prototypes.Authenticators = []config.Mechanism{{ID: "anon", Type: "anonymous"}, {ID: "probe", Type: vkit.ProbeType}}
 	conf.Prototypes.Finalizers = []config.Mechanism{{ID: "jwt", Type: "jwt", Config: pc}}
 
-	w, err := vkit.NewWorld(vkit.WorldOpts{Conf: conf})
+	opts := vkit.WorldOpts{Conf: conf}
+	if s.Cache {
+		opts.Cache = vkit.NewRecCache()
+	}
+
+	w, err := vkit.NewWorld(opts)
 	if err != nil {
 		return nil, "", err
 	}
@@ -169,8 +177,11 @@ func build(s setup, dir string) (*vkit.World, string, error) {
 		authn = config.MechanismConfig{"authenticator": "probe", "config": map[string]any{"subject": vkit.EmptySubject}}
 	}
 
-	err = w.Load("src", rulecfg.Rule{ID: "r", Matcher: rulecfg.Matcher{Routes: []rulecfg.Route{{Path: "/**"}}},
-		Execute: []config.MechanismConfig{authn, ref}})
+	err = w.Load("src",
+		rulecfg.Rule{ID: "catalogue", Matcher: rulecfg.Matcher{Routes: []rulecfg.Route{{Path: "/as-in-the-catalogue"}}},
+			Execute: []config.MechanismConfig{authn, {"finalizer": "jwt"}}},
+		rulecfg.Rule{ID: "r", Matcher: rulecfg.Matcher{Routes: []rulecfg.Route{{Path: "/**"}}},
+			Execute: []config.MechanismConfig{authn, ref}})
 
 	return w, path, err
 }
@@ -298,10 +309,12 @@ func verifyAgainst(ti tokenInfo, keys []map[string]any) error {
 	return nil
 }
 
-func issue(w *vkit.World) (tokenInfo, int64, error) {
+func issue(w *vkit.World) (tokenInfo, int64, error) { return issueAt(w, "/x") }
+
+func issueAt(w *vkit.World, path string) (tokenInfo, int64, error) {
 	before := time.Now().Unix()
 
-	resp, err := w.Send(vkit.EntryDecision, vkit.LogicalRequest{Method: "GET", Host: "svc.example.com", RawPath: "/x"}, nil)
+	resp, err := w.Send(vkit.EntryDecision, vkit.LogicalRequest{Method: "GET", Host: "svc.example.com", RawPath: path}, nil)
 	if err != nil {
 		return tokenInfo{}, 0, err
 	}
@@ -329,6 +342,7 @@ func genSetup(t *rapid.T) setup {
 	s.Signer = rapid.SampledFrom([]string{"", "verif-issuer", "https://heimdall.example.com"}).Draw(t, "signer")
 	s.TTL = rapid.SampledFrom([]string{"", "2s", "7s", "90s", "15m", "2500ms"}).Draw(t, "ttl")
 	s.OverTTL = rapid.SampledFrom([]string{"", "", "3s", "1h"}).Draw(t, "overTTL")
+	s.Cache = rapid.Bool().Draw(t, "tokenCache")
 
 	if rapid.Bool().Draw(t, "selectKey") {
 		e := s.Store[rapid.IntRange(0, len(s.Store)-1).Draw(t, "selectedKey")]
@@ -404,12 +418,24 @@ func TestIssuedTokensVerifyAndCarrySystemClaims(t *testing.T) {
 			t.Fatalf("the JWKS endpoint publishes %d keys for a key store with %d entries\n%s", len(keys), len(s.Store), s)
 		}
 
+		before0 := time.Now().Unix()
+
+		if s.Cache {
+			if _, _, err = issueAt(w, "/as-in-the-catalogue"); err != nil {
+				t.Fatalf("no token issued by the rule using the finalizer as it is in the catalogue: %v\n%s", err, s)
+			}
+		}
+
 		ti, before, err := issue(w)
 		if err != nil {
 			t.Fatalf("no token issued: %v\n%s", err, s)
 		}
 
+		before = min(before, before0)
 		after := time.Now().Unix()
+
+		vkit.S.LabelIf(s.Cache, "token_cache_in_use")
+		vkit.S.LabelIf(s.Cache && s.OverTTL != "" && s.OverClaim == "", "token_cache_in_use.rule_overrides_ttl_only")
 
 		vkit.S.Eval()
 		vkit.S.Label(fmt.Sprintf("entries=%d", len(s.Store)))
